@@ -148,5 +148,20 @@ pub fn run() {
             println!("DUPCASE {label}-{} result={result}", if adjacent { "adjacent" } else { "apart" });
         }
     }
+    // definitions registered with regexes BUILT with non-default options (RegexBuilder): what is registered is what matches
+    {
+        let ci = regex::RegexBuilder::new(r"^foo (\d+)$").case_insensitive(true).build().unwrap();
+        let lazy = regex::RegexBuilder::new(r"^bar (\d+)(\d*)$").swap_greed(true).build().unwrap();
+        let c = Collection::<W>::new().given(None, ci, f0).given(None, lazy, f1);
+        for (label, text, want) in [("case-insensitive", "FOO 7", "one:-=FOO 7;-=7"), ("swap-greed", "bar 123", "one:-=bar 123;-=1;-=23")] {
+            let feat = super::parse_feature(&format!("Feature: f\n  Scenario: s\n    Given {text}\n"));
+            let result = match c.find(&feat.scenarios[0].steps[0]) {
+                Ok(None) => "none".to_owned(),
+                Err(e) => format!("ambiguous:{}", e.possible_matches.len()),
+                Ok(Some((_, _, _, ctx))) => format!("one:{}", ctx.matches.iter().map(|(n, v)| format!("{}={}", n.clone().unwrap_or("-".into()), v)).collect::<Vec<_>>().join(";")),
+            };
+            println!("BUILDERCASE {label} ok={} result={}", result == want, result.replace(' ', "_"));
+        }
+    }
     println!("RESULT cases={n}");
 }
